@@ -20,6 +20,10 @@ class PathAbort(Exception):
         self.why = why
 
 
+class WouldFork(Exception):
+    """raised instead of forking while an expression is evaluated speculatively"""
+
+
 class Unsupported(Exception):
     """construct outside the supported subset / missing shape or contract"""
 
@@ -255,6 +259,11 @@ class PathCtx:
         for i in live:
             if z3.is_true(gs[i]) or gs[i].get_id() in self.known:
                 return i
+        if getattr(self, "no_fork", 0):
+            feas = [i for i in live if self._feasible(gs[i])]
+            if len(feas) == 1:
+                return feas[0]
+            raise WouldFork()
         if self.k < len(self.prefix):
             i = self.prefix[self.k]
             self.k += 1
@@ -274,6 +283,8 @@ class PathCtx:
 
     def fork(self, n):
         """unconditional n-way fork"""
+        if getattr(self, "no_fork", 0):
+            raise WouldFork()
         if self.k < len(self.prefix):
             i = self.prefix[self.k]
             self.k += 1
